@@ -1,14 +1,20 @@
 import Csverif.Model.Sched
+import Csverif.Model.SchedLoop
 import Csverif.Driver.Wire
 /- Line protocol, scheduling layer (stateful).  Rationals `n/d`; strings in `Wire.encStr` form; side `L`/`R`.
    `reset <puntL> <puntR> <last>`            new SyncState (punt_secs, _last_changed_time)
    `dir <P> <D>`                             providers[LOCAL].dirname(P) = D
-   `update <s> <oid> <path> <prio> <now>`    state.update(s, FILE, oid, path=path, hash=h); prio = prioritize(s, path)
+   `update <s> <oid> <path|~> <prio> <now>`  state.update(s, FILE, oid, path=path, hash=h); prio = prioritize(s, path)
+   `info <s> <oid> <path|~> <prio>`          providers[s].info_oid(oid) = object at `path` (`~`: no such object); prio = prioritize(s, path)
    `attach <s> <id> <oid> <path> <prio>`     ent[s].oid = oid; ent[s].path = path
    `mark <s> <id> <now>`                     state.mark_changed(s, ent)
    `punt <id>` | `setprio <id> <v>` | `clear <s> <id>` | `setaged <s> <id>` | `syncpath <s> <id> <P>` | `finished <id>`
-   `change <now> <age>`                      → `pick <id>` or `pick ~`
-   every mutating line answers `<M|U> [id <n>] <last> | <id> <prio> <lchanged> <rchanged> ; … | <pending ids>`
+   `change <now> <age>`                      state.change(age) incl. the fill-in loop → `pick <id|~> ` followed by the state
+   `loop <age> <sleep> <mn> <mx> <mult> <b0> <now> <w1>:<d1> <w2>:<d2> …`
+                                             Runnable.run/SyncManager.do over the current changeset (not written back);
+                                             w ∈ F(inished) P(unted) Q(requeue) R(aised), d = time the work takes
+                                             → `<t> <id|~> ; … | <final in_backoff>`
+   every mutating line answers `[id <n>|pick <x>] <M|U> <last> | <id> <prio> <lchanged> <rchanged> <lpath> <rpath> ; … | <pending ids>`
    (`U` = an unmodelled branch was met since the last reset). -/
 namespace CS.Driver.Sched
 open CS.Sched CS.Wire
@@ -38,16 +44,32 @@ def parseSide : String → Option Bool
 def parseStr (t : String) : Option String := (decStr t).map String.ofList
 
 structure DSt where
-  st  : St := {}
-  dns : List (String × String) := []
+  st    : St := {}
+  dns   : List (String × String) := []
+  infos : List ((Bool × String) × Option (String × Rat)) := []
 
 def DSt.dn (d : DSt) (p : String) : String :=
   match d.dns.find? (·.1 == p) with
   | some (_, x) => x
   | none => ""
 
+def DSt.orc (d : DSt) : Oracle := fun id s =>
+  match d.st.get? id with
+  | some e =>
+    match (e.side s).oid with
+    | some o =>
+      match d.infos.find? (fun x => x.1 == (s, o)) with
+      | some (_, a) => a
+      | none => none
+    | none => none
+  | none => none
+
+def encOptS : Option String → String
+  | none => "~"
+  | some p => encStr p.toList
+
 def encEntry (e : Entry) : String :=
-  s!"{e.id} {encRat e.priority} {encOptRat e.l.changed} {encOptRat e.r.changed}"
+  s!"{e.id} {encRat e.priority} {encOptRat e.l.changed} {encOptRat e.r.changed} {encOptS e.l.path} {encOptS e.r.path}"
 
 def encSt (st : St) : String :=
   (if st.unmodelled then "U " else "M ") ++ encRat st.last ++ " | " ++
@@ -60,14 +82,22 @@ def step (d : DSt) (toks : List String) : DSt × String :=
   match toks with
   | ["reset", pl, pr, last] =>
     match parseRat pl, parseRat pr, parseRat last with
-    | some pl, some pr, some last => ({ st := { punt := (pl, pr), last := last }, dns := [] }, "ok")
+    | some pl, some pr, some last => ({ st := { punt := (pl, pr), last := last }, dns := [], infos := [] }, "ok")
     | _, _, _ => bad
   | ["dir", p, q] =>
     match parseStr p, parseStr q with
     | some p, some q => ({ d with dns := (p, q) :: d.dns }, "ok")
     | _, _ => bad
+  | ["info", s, oid, path, prio] =>
+    match parseSide s, parseStr oid, parseRat prio with
+    | some s, some oid, some prio =>
+      if path == "~" then ({ d with infos := ((s, oid), none) :: d.infos }, "ok")
+      else match parseStr path with
+        | some path => ({ d with infos := ((s, oid), some (path, prio)) :: d.infos }, "ok")
+        | none => bad
+    | _, _, _ => bad
   | ["update", s, oid, path, prio, now] =>
-    match parseSide s, parseStr oid, parseStr path, parseRat prio, parseRat now with
+    match parseSide s, parseStr oid, (if path == "~" then some none else (parseStr path).map some), parseRat prio, parseRat now with
     | some s, some oid, some path, some prio, some now =>
       let (st, id) := opUpdate d.st s oid path prio now
       ({ d with st := st }, s!"id {id} " ++ encSt st)
@@ -107,10 +137,26 @@ def step (d : DSt) (toks : List String) : DSt × String :=
   | ["change", now, age] =>
     match parseRat now, parseRat age with
     | some now, some age =>
-      match changeSt d.st now age with
-      | some e => (d, s!"pick {e.id}")
-      | none => (d, "pick ~")
+      let (st, r) := changeFull d.orc d.st now age
+      ({ d with st := st }, (match r with | some e => s!"pick {e.id} " | none => "pick ~ ") ++ encSt st)
     | _, _ => bad
+  | "loop" :: age :: sleep :: mn :: mx :: mult :: b0 :: now :: ws =>
+    let parseStep (t : String) : Option SchedLoop.Step :=
+      match t.splitOn ":" with
+      | [w, dd] =>
+        match (match w with
+          | "F" => some SchedLoop.Work.finished | "P" => some .punted | "Q" => some .requeue | "R" => some .raised
+          | _ => none), parseRat dd with
+        | some w, some dd => some { work := w, dur := dd }
+        | _, _ => none
+      | _ => none
+    match parseRat age, parseRat sleep, parseRat mn, parseRat mx, parseRat mult, parseRat b0, parseRat now, ws.mapM parseStep with
+    | some age, some sleep, some mn, some mx, some mult, some b0, some now, some ws =>
+      let c : SchedLoop.Cfg := { age := age, sleep := sleep, punt := d.st.punt, bp := ⟨mn, mx, mult⟩ }
+      let (L, tr) := SchedLoop.run c { P := d.st.pendingEntries, now := now, backoff := b0 } ws
+      (d, " ; ".intercalate (tr.map (fun r => encRat r.at_ ++ " " ++ (match r.ent with | some e => toString e.id | none => "~")))
+          ++ " | " ++ encRat L.backoff)
+    | _, _, _, _, _, _, _, _ => bad
   | _ => bad
 
 end CS.Driver.Sched
